@@ -8,7 +8,8 @@
 (* expected to fail; CexInv prints the history that breaks them.             *)
 EXTENDS Dedup, TLC, Json
 
-CONSTANTS Frames, Ws, Times, Receivers, MaxLen, AllowClose
+CONSTANTS Frames, Ws, Times, Receivers, MaxLen, AllowClose,
+          MaxMult        \* an arrival carries 1..MaxMult receptions (1: the single-reception sources)
 
 RxPerms == Permutations(Receivers)
 
@@ -17,6 +18,10 @@ Init == \E ww \in Ws : InitW(ww)
 Next == \/ /\ Len(hist) < MaxLen
            /\ \E f \in Frames, t \in Times, rx \in Receivers :
                  Insert([id |-> Len(hist) + 1, f |-> f, t |-> t, rx |-> rx])
+        \/ /\ MaxMult > 1
+           /\ \E k \in 2..MaxMult : Len(hist) + k <= MaxLen /\
+                \E f \in Frames, t \in Times, rxs \in [1..k -> Receivers] :
+                   InsertMulti([i \in 1..k |-> [id |-> Len(hist) + i, f |-> f, t |-> t, rx |-> rxs[i], last |-> (i = k)]])
         \/ Pop
         \/ (AllowClose /\ Close)
 
